@@ -1,7 +1,7 @@
 import NTV.Proofs.Lemmas.EcmProofs
 import Mathlib.Logic.Relation
 /-! The work-stack driver `driverLoop` as a transition system.
-`Step ecmFn prof b st st'` is one iteration of `while let Some(..) = stack.pop()` that does not leave
+`Step ecmFn prof bsel st st'` is one iteration of `while let Some(..) = stack.pop()` that does not leave
 the loop; `driverLoop_ok_run`: a run that returns `.ok result count rest` is a finite chain of steps
 from the start state to a state with an empty stack whose map, sorted, is the result.
 Also: every stream-consuming routine returns a suffix of the stream it was given. -/
@@ -9,46 +9,48 @@ namespace NTV.Ecm
 open NTV.Draw (Stream)
 
 /-- one iteration of the driver loop (the five `continue`/fall-through paths of the Rust) -/
-inductive Step (ecmFn : Int → Nat → Nat → Stream → EcmRes) (prof : Profile) (b : Nat) : DState → DState → Prop
+inductive Step (ecmFn : Int → Nat → Nat → Stream → EcmRes) (prof : Profile) (bsel : Int → Option Nat) : DState → DState → Prop
   /-- `if now <= 1 { continue }` -/
   | drop (st : DState) (now : Int) (mult : Nat) (h : st.stack.getLast? = some (now, mult)) (hle : now ≤ 1) :
-      Step ecmFn prof b st { st with stack := st.stack.dropLast }
+      Step ecmFn prof bsel st { st with stack := st.stack.dropLast }
   /-- `if is_prime(&now) { *map.entry(now).or_insert(0) += multiplicity; continue }` -/
   | prime (st : DState) (now : Int) (mult : Nat) (s : Stream) (m : List (Int × Nat))
       (h : st.stack.getLast? = some (now, mult)) (hgt : 1 < now)
       (hp : isPrimeS now st.stream = some (true, s)) (hm : mapAdd prof st.map now mult = .ok m) :
-      Step ecmFn prof b st { st with stack := st.stack.dropLast, map := m, stream := s }
+      Step ecmFn prof bsel st { st with stack := st.stack.dropLast, map := m, stream := s }
   /-- `if k >= 2 { stack.push((b, multiplicity * k)); continue }` -/
   | power (st : DState) (now : Int) (mult : Nat) (s : Stream) (base : Int) (k m : Nat)
       (h : st.stack.getLast? = some (now, mult)) (hgt : 1 < now)
       (hp : isPrimeS now st.stream = some (false, s))
       (hpp : NTV.Elem.perfectPower now = some (base, k)) (hk : k ≥ 2) (hm : mulU64 prof mult k = .ok m) :
-      Step ecmFn prof b st { st with stack := st.stack.dropLast ++ [(base, m)], stream := s }
+      Step ecmFn prof bsel st { st with stack := st.stack.dropLast ++ [(base, m)], stream := s }
   /-- `if fac == 1 { stack.push((now, multiplicity)); continue }` -/
-  | retry (st : DState) (now : Int) (mult : Nat) (s : Stream) (base : Int) (k b2 : Nat)
+  | retry (st : DState) (now : Int) (mult : Nat) (s : Stream) (base : Int) (k b b2 : Nat)
       (fac : Int) (nowcount : Nat) (s' : Stream) (count : Nat)
       (h : st.stack.getLast? = some (now, mult)) (hgt : 1 < now)
       (hp : isPrimeS now st.stream = some (false, s))
-      (hpp : NTV.Elem.perfectPower now = some (base, k)) (hk : ¬ k ≥ 2) (hb2 : mulU64 prof 100 b = .ok b2)
+      (hpp : NTV.Elem.perfectPower now = some (base, k)) (hk : ¬ k ≥ 2) (hb : bsel now = some b)
+      (hb2 : mulU64 prof 100 b = .ok b2)
       (hf : ecmFn now b b2 s = .found fac nowcount s') (hc : addU64 prof st.count nowcount = .ok count)
       (h1 : fac = 1) :
-      Step ecmFn prof b st { stack := st.stack.dropLast ++ [(now, mult)], map := st.map, count := count, stream := s' }
+      Step ecmFn prof bsel st { stack := st.stack.dropLast ++ [(now, mult)], map := st.map, count := count, stream := s' }
   /-- `stack.push((fac, multiplicity)); stack.push((now / fac, multiplicity))` -/
-  | split (st : DState) (now : Int) (mult : Nat) (s : Stream) (base : Int) (k b2 : Nat)
+  | split (st : DState) (now : Int) (mult : Nat) (s : Stream) (base : Int) (k b b2 : Nat)
       (fac : Int) (nowcount : Nat) (s' : Stream) (count : Nat)
       (h : st.stack.getLast? = some (now, mult)) (hgt : 1 < now)
       (hp : isPrimeS now st.stream = some (false, s))
-      (hpp : NTV.Elem.perfectPower now = some (base, k)) (hk : ¬ k ≥ 2) (hb2 : mulU64 prof 100 b = .ok b2)
+      (hpp : NTV.Elem.perfectPower now = some (base, k)) (hk : ¬ k ≥ 2) (hb : bsel now = some b)
+      (hb2 : mulU64 prof 100 b = .ok b2)
       (hf : ecmFn now b b2 s = .found fac nowcount s') (hc : addU64 prof st.count nowcount = .ok count)
       (h1 : fac ≠ 1) :
-      Step ecmFn prof b st
+      Step ecmFn prof bsel st
         { stack := st.stack.dropLast ++ [(fac, mult), (Int.tdiv now fac, mult)], map := st.map, count := count, stream := s' }
 
 /-- a run of the driver that returns is a finite chain of `Step`s ending with an empty stack -/
-theorem driverLoop_ok_run (ecmFn : Int → Nat → Nat → Stream → EcmRes) (prof : Profile) (b : Nat)
+theorem driverLoop_ok_run (ecmFn : Int → Nat → Nat → Stream → EcmRes) (prof : Profile) (bsel : Int → Option Nat)
     (fuel : Nat) (st : DState) (result : List (Int × Nat)) (count : Nat) (rest : Stream)
-    (h : driverLoop ecmFn prof b fuel st = .ok result count rest) :
-    ∃ fin : DState, Relation.ReflTransGen (Step ecmFn prof b) st fin ∧ fin.stack = [] ∧
+    (h : driverLoop ecmFn prof bsel fuel st = .ok result count rest) :
+    ∃ fin : DState, Relation.ReflTransGen (Step ecmFn prof bsel) st fin ∧ fin.stack = [] ∧
       result = sortPairs fin.map ∧ count = fin.count ∧ rest = fin.stream := by
   induction fuel generalizing st with
   | zero =>
@@ -94,30 +96,33 @@ theorem driverLoop_ok_run (ecmFn : Int → Nat → Nat → Stream → EcmRes) (p
             · rename_i hk
               split at h
               · cases h
-              · rename_i b2 hb2
+              · rename_i b hb
                 split at h
                 · cases h
-                · cases h
-                · rename_i fac nowcount s' hfound
+                · rename_i b2 hb2
                   split at h
                   · cases h
-                  · rename_i cnt hc
+                  · cases h
+                  · rename_i fac nowcount s' hfound
                     split at h
-                    · rename_i h1
-                      have h1' : fac = 1 := by simpa using h1
-                      obtain ⟨fin, hr, hfin⟩ := ih _ h
-                      exact ⟨fin, .head (.retry st now mult s base k b2 fac nowcount s' cnt hsome hnow hp hpp hk
-                        hb2 hfound hc h1') hr, hfin⟩
-                    · rename_i h1
-                      have h1' : fac ≠ 1 := by simpa using h1
-                      obtain ⟨fin, hr, hfin⟩ := ih _ h
-                      exact ⟨fin, .head (.split st now mult s base k b2 fac nowcount s' cnt hsome hnow hp hpp hk
-                        hb2 hfound hc h1') hr, hfin⟩
+                    · cases h
+                    · rename_i cnt hc
+                      split at h
+                      · rename_i h1
+                        have h1' : fac = 1 := by simpa using h1
+                        obtain ⟨fin, hr, hfin⟩ := ih _ h
+                        exact ⟨fin, .head (.retry st now mult s base k b b2 fac nowcount s' cnt hsome hnow hp hpp hk hb
+                          hb2 hfound hc h1') hr, hfin⟩
+                      · rename_i h1
+                        have h1' : fac ≠ 1 := by simpa using h1
+                        obtain ⟨fin, hr, hfin⟩ := ih _ h
+                        exact ⟨fin, .head (.split st now mult s base k b b2 fac nowcount s' cnt hsome hnow hp hpp hk hb
+                          hb2 hfound hc h1') hr, hfin⟩
 
 /-- an invariant of single steps holds at the end of every returning run -/
-theorem run_invariant {ecmFn : Int → Nat → Nat → Stream → EcmRes} {prof : Profile} {b : Nat}
-    (P : DState → Prop) (hstep : ∀ st st', P st → Step ecmFn prof b st st' → P st')
-    {st fin : DState} (h0 : P st) (hr : Relation.ReflTransGen (Step ecmFn prof b) st fin) : P fin := by
+theorem run_invariant {ecmFn : Int → Nat → Nat → Stream → EcmRes} {prof : Profile} {bsel : Int → Option Nat}
+    (P : DState → Prop) (hstep : ∀ st st', P st → Step ecmFn prof bsel st st' → P st')
+    {st fin : DState} (h0 : P st) (hr : Relation.ReflTransGen (Step ecmFn prof bsel) st fin) : P fin := by
   induction hr with
   | refl => exact h0
   | tail _ hs ih => exact hstep _ _ ih hs
